@@ -8,6 +8,7 @@ import (
 	"fmt"
 	"strings"
 	"testing"
+	"time"
 	"unicode/utf8"
 
 	"verif/harness/gen"
@@ -221,7 +222,12 @@ func genC15(t *rapid.T) c15Case {
 	return c
 }
 
+// the parsers' property includes termination, and a case takes microseconds (milliseconds for
+// the reader's 64 KiB lines): one evaluation running for 30 s is reported as "did not terminate"
+const c15HangBound = 30 * time.Second
+
 func TestC15(t *testing.T) {
+	pbt.HangIsViolation(c15HangBound)
 	pbt.Run(t, "C15", "TestC15", genC15, checkC15)
 }
 
@@ -231,6 +237,7 @@ var c15ExhAlphabet = []string{"\"", "@", "[", "]", "<", ">", "/", "_", ":", "^",
 var c15Suffixes = []string{"", "\"^^type:text", "\"^^type:blob", "\"^^type:int64", "\"^^type:bool", "\"^^type:float64", "\"^^type:x", "\"@[]", "\"@[2006-01-02T15:04:05Z]", ">"}
 
 func TestC15Exh(t *testing.T) {
+	pbt.HangIsViolation(c15HangBound)
 	if pbt.ReplayPath() != "" {
 		pbt.Run(t, "C15", "TestC15Exh", func(*rapid.T) c15Case { return c15Case{} }, checkC15)
 		return
@@ -419,5 +426,6 @@ func truncate(s string, n int) string {
 }
 
 func TestC15Reader(t *testing.T) {
+	pbt.HangIsViolation(c15HangBound)
 	pbt.Run(t, "C15", "TestC15Reader", genC15Reader, checkC15Reader)
 }
